@@ -311,3 +311,36 @@ Proof.
   unfold format_text. change (cFields c0) with (map (fun r : string * string * N * ckind => let '(j, _, _, _) := r in j) name_table).
   rewrite (default_members_eq m name_table (incl_refl _)). reflexivity.
 Qed.
+
+(* ---- what the loader refuses ---- *)
+Lemma configured_none f cs k r :
+  In (k, r) (fRender f) -> sassoc registered_renderers r = None -> configured_renderers f cs = None.
+Proof.
+  unfold configured_renderers. induction (fRender f) as [|[k' r'] l IH]; intros Hin Hr; [contradiction|].
+  cbn [fold_right fst snd]. destruct Hin as [E|Hin].
+  - inversion E; subst. rewrite Hr. destruct (fold_right _ _ l); reflexivity.
+  - rewrite (IH Hin Hr). reflexivity.
+Qed.
+
+Theorem unknown_renderer_rejected f cs k r :
+  In (k, r) (fRender f) -> sassoc registered_renderers r = None -> compile_fmt f cs = None.
+Proof. intros Hin Hr. unfold compile_fmt. rewrite (configured_none f cs k r Hin Hr). reflexivity. Qed.
+
+Theorem unknown_field_rejected f cs conf s :
+  configured_renderers f cs = Some conf -> In s (fFields f) -> in_remap cs s = false -> render_fn conf s = None ->
+  compile_fmt f cs = None.
+Proof.
+  intros Hc Hin Hr Hn. unfold compile_fmt. rewrite Hc.
+  assert (E : forallb (fun s0 => in_remap cs s0 || match render_fn conf s0 with Some _ => true | None => false end) (fFields f) = false).
+  { apply not_true_is_false. intros H. rewrite forallb_forall in H. specialize (H s Hin). rewrite Hr, Hn in H. discriminate. }
+  rewrite E. reflexivity.
+Qed.
+
+Theorem unknown_key_rejected f cs s :
+  In s (fKeys f) -> in_remap cs s = false -> compile_fmt f cs = None.
+Proof.
+  intros Hin Hr. unfold compile_fmt. destruct (configured_renderers f cs) as [conf|]; [|reflexivity].
+  assert (E : forallb (in_remap cs) (fKeys f) = false).
+  { apply not_true_is_false. intros H. rewrite forallb_forall in H. specialize (H s Hin). congruence. }
+  rewrite E, andb_false_r. reflexivity.
+Qed.
